@@ -327,6 +327,21 @@ func init() {
 			st.setGhostTerm("time.last", v)
 			return &StructV{F: []Value{smt.BV(0, 64), v, Ptr{}}}, true
 		},
+		// big.NewInt of a symbolic value: one-word magnitude without forking on zero/sign (the result is
+		// not normalised when the value is zero; only Int64/Uint64 are meaningful on it)
+		"math/big.NewInt": func(e *Engine, fr *Frame, args []Value) (Value, bool) {
+			x := args[0].(*smt.Term)
+			if x.IsConst() && x.Const() == 0 {
+				id := e.st.alloc(&StructV{F: []Value{smt.False, Slice{}}}, nil, "big.Int")
+				return Ptr{Obj: id}, true
+			}
+			neg := smt.Cmp(smt.OpSlt, x, smt.BV(0, 64))
+			abs := smt.Ite(neg, smt.Neg(x), x)
+			arr := &ArrayV{E: []Value{abs}}
+			aid := e.st.alloc(arr, nil, "big.nat")
+			id := e.st.alloc(&StructV{F: []Value{neg, Slice{Arr: Ptr{Obj: aid}, Len: 1, Cap: 1}}}, nil, "big.Int")
+			return Ptr{Obj: id}, true
+		},
 		"time.Sleep":        noop,
 		"runtime.Gosched":   noop,
 		"runtime.KeepAlive": noop,
